@@ -28,6 +28,9 @@ pub struct Case {
     pub enumerate: bool,
     #[serde(default)]
     pub only_placement: Option<usize>,
+    /// evenly spaced sample of at most this many placements (default 200)
+    #[serde(default)]
+    pub placement_cap: Option<usize>,
 }
 
 pub fn strategy(with_attacker: bool) -> impl Strategy<Value = Case> {
@@ -45,7 +48,28 @@ pub fn strategy(with_attacker: bool) -> impl Strategy<Value = Case> {
         .prop_map(move |(tr, kcfg, no_symlinks, o, capi, (enumerate, muts))| {
             let tree = build_tree(&tr);
             let op = build_op(&tree, &o);
-            Case { tree, kcfg, no_symlinks, capi: capi && !no_symlinks && !op.has_nul(), op, muts: if with_attacker { muts } else { vec![] }, enumerate, only_placement: None }
+            Case { tree, kcfg, no_symlinks, capi: capi && !no_symlinks && !op.has_nul(), op, muts: if with_attacker { muts } else { vec![] }, enumerate, only_placement: None, placement_cap: None }
+        })
+}
+
+/// remove_all of a directory that has non-empty sub-directories, while the attacker
+/// replaces one of the entries the recursion touches (mostly by links that leave the
+/// root): the recursion must not follow what was swapped in.
+pub fn recursive_strategy() -> impl Strategy<Value = Case> {
+    (
+        tree_recipe(6),
+        prop_oneof![2 => Just(Kcfg::NoMountApi), 3 => Just(Kcfg::NoOpenat2NoMountApi), 1 => Just(Kcfg::Full)],
+        (any::<u16>(), 0u8..12, 1u8..5, any::<u8>()),
+        prop_oneof![4 => Just(false), 1 => Just(true)],
+        prop_oneof![4 => Just(MutKind::ExchangeLinkOutsideDir), 2 => Just(MutKind::ReplaceByLinkOutside), 2 => (0u8..3).prop_map(MutKind::ExchangeLinkDotdot), 1 => Just(MutKind::ExchangeDir), 1 => Just(MutKind::MoveOut), 1 => Just(MutKind::ExchangeLinkOutsideFile)],
+        any::<u16>(),
+        0u8..3,
+    )
+        .prop_map(|(tr, kcfg, (at, width, depth, name), capi, kind, target, restore_after)| {
+            let mut tree = build_tree(&tr);
+            let top = crate::props::c13::add_bulk(&mut tree, at, width, depth, name);
+            let op = Op::RemoveAll { path: top };
+            Case { tree, kcfg, no_symlinks: false, capi, op, muts: vec![(0u16, MutRecipe { kind, target, parent: false, restore_after })], enumerate: true, only_placement: None, placement_cap: Some(48) }
         })
 }
 
@@ -296,9 +320,9 @@ pub fn child(case: &Case) -> Report {
         schedules.push((plan, restores));
     }
     // bounded work per case (see C02): an evenly spaced sample of at most 200 placements, 45 s
-    const MAX_PLACEMENTS: usize = 200;
+    let MAX_PLACEMENTS: usize = case.placement_cap.unwrap_or(200);
     let total = schedules.len();
-    let keep: Vec<bool> = (0..total).map(|k| total <= MAX_PLACEMENTS || (k * MAX_PLACEMENTS / total) != ((k + 1) * MAX_PLACEMENTS / total) || k < 20).collect();
+    let keep: Vec<bool> = (0..total).map(|k| total <= MAX_PLACEMENTS || (k * MAX_PLACEMENTS / total) != ((k + 1) * MAX_PLACEMENTS / total) || k < MAX_PLACEMENTS / 10).collect();
     let t0 = now_s();
     for (k, (plan, restores)) in schedules.into_iter().enumerate() {
         if case.only_placement.is_none() && (!keep[k] || now_s() - t0 > 45.0) {
@@ -445,6 +469,9 @@ fn run_lane(ctx: &Ctx, lr: &mut LaneResult) {
     if lr.violations.is_empty() {
         search(ctx, lr, "frame-attacked", ctx.tier.pick(560, 5600), strategy(true), &check);
     }
+    if lr.violations.is_empty() {
+        search_opts(ctx, lr, "frame-attacked-recursive", ctx.tier.pick(192, 1920), recursive_strategy(), &check, 12);
+    }
 }
 
 fn replay(_ctx: &Ctx, _check: &str, case: &Value) -> Result<(), Fail> {
@@ -456,7 +483,7 @@ fn replay(_ctx: &Ctx, _check: &str, case: &Value) -> Result<(), Fail> {
 pub const PROP: Prop = Prop {
     id: "C03",
     level: "exploration",
-    rule: "generated tree x one mutating operation (create of every inode kind incl. symlink and hardlink, create_file with flag sets incl. O_PATH, mkdir_all, remove_file, remove_dir, remove_all, rename with flags; Rust and C API) with argument paths weighted towards final '..'/'.', only-'..', absolute, through links that leave the root, trailing slashes x backend x attacker schedule (none; or one mutation at EVERY placement point of the operation's own syscall trace; or 2-3 sampled placements; targets = names the operation touches, existing or about to be created). Oracle (frame condition over the whole sandbox, which contains the root's parent, sibling directories with the same names, a stash and an 'outside' tree): every object that was never inside the root is still at its path with the same identity, type, mode, owner, size, content hash and link body; no new entry appears in a directory that was never inside (attacker's own logged objects excepted); a returned descriptor refers to an object that is, or whose parent is, ever-inside; descriptor table intact; no panic. evaluations = operation runs; non-trivial = argument lexically leaves the root / ends in '.' or '..' / is absolute, or the tree has links leaving the root, or an attacker mutation was applied; distinct by (tree, op, kcfg, placements, mutations, api)",
+    rule: "generated tree x one mutating operation (create of every inode kind incl. symlink and hardlink, create_file with flag sets incl. O_PATH, mkdir_all, remove_file, remove_dir, remove_all, rename with flags; Rust and C API) with argument paths weighted towards final '..'/'.', only-'..', absolute, through links that leave the root, trailing slashes x backend x attacker schedule (none; or one mutation at EVERY placement point of the operation's own syscall trace; or 2-3 sampled placements; targets = names the operation touches, existing or about to be created); plus a directed driver: remove_all of a generated wide/deep directory while one of the entries its recursion touches is exchanged for a link leaving the root / a foreign directory / moved out, at every placement point (sample of 200 when there are more). Oracle (frame condition over the whole sandbox, which contains the root's parent, sibling directories with the same names, a stash and an 'outside' tree): every object that was never inside the root is still at its path with the same identity, type, mode, owner, size, content hash and link body; no new entry appears in a directory that was never inside (attacker's own logged objects excepted); a returned descriptor refers to an object that is, or whose parent is, ever-inside; descriptor table intact; no panic. evaluations = operation runs; non-trivial = argument lexically leaves the root / ends in '.' or '..' / is absolute, or the tree has links leaving the root, or an attacker mutation was applied; distinct by (tree, op, kcfg, placements, mutations, api)",
     assumptions: &["link counts and time stamps are not compared (unlinking an inside name of a hard-linked inode legitimately changes them)", "pre-emption granularity is the library's own system calls"],
     lanes: |_| 16,
     run_lane,
